@@ -514,6 +514,9 @@ Section Roundtrip.
       unfold dec_u32.
       rewrite (bind_ok _ _ _ _ _ (dec_uint_phead 4294967295 idx (flat y ++ rest) (p + 1) L
                  ltac:(lia) ltac:(lia) ltac:(lens))).
+      assert (Hlt : (idx <? len (map D ts)) = true).
+      { apply N.ltb_lt. unfold len. rewrite map_length. pose proof (proj1 (nth_error_Some ts (N.to_nat idx)) ltac:(congruence)). lia. }
+      rewrite Hlt.
       rewrite (map_nth_error D _ _ Ht').
       rewrite (bind_ok _ _ _ _ _ (Hall v y rest (p + 1 + len (phead 0 idx)) L Hy ltac:(lens) ltac:(lens) ltac:(lens))).
       unfold ret. apply st_eq. rewrite len_cons, len_app. lia.
